@@ -3,6 +3,7 @@ package operations
 import (
 	"path"
 	"sort"
+	"strconv"
 	"strings"
 
 	"github.com/go-openapi/jsonpointer"
@@ -38,9 +39,20 @@ type OpRef struct {
 // OpRefs is a sortable collection of operations
 type OpRefs []OpRef
 
-func (o OpRefs) Len() int           { return len(o) }
-func (o OpRefs) Swap(i, j int)      { o[i], o[j] = o[j], o[i] }
-func (o OpRefs) Less(i, j int) bool { return o[i].Key < o[j].Key }
+func (o OpRefs) Len() int      { return len(o) }
+func (o OpRefs) Swap(i, j int) { o[i], o[j] = o[j], o[i] }
+func (o OpRefs) Less(i, j int) bool {
+	// NOTE: keys are not necessarily unique (e.g. "post /a-b" and "post /a_b"): make this a total order
+	if o[i].Key != o[j].Key {
+		return o[i].Key < o[j].Key
+	}
+
+	if o[i].Method != o[j].Method {
+		return o[i].Method < o[j].Method
+	}
+
+	return o[i].Path < o[j].Path
+}
 
 // Provider knows how to collect operations from a spec
 type Provider interface {
@@ -74,9 +86,17 @@ func GatherOperations(specDoc Provider, operationIDs []string) map[string]OpRef 
 			nm = opr.Key
 		}
 
-		oo, found := operations[nm]
-		if found && oo.Method != opr.Method && oo.Path != opr.Path {
+		if _, found := operations[nm]; found {
+			// another operation already goes by this name (duplicate operation ID, or an ID which equals
+			// the generated key of another operation): use the generated key, made unique if need be
 			nm = opr.Key
+			for i := 1; ; i++ {
+				if _, taken := operations[nm]; !taken {
+					break
+				}
+
+				nm = opr.Key + strconv.Itoa(i)
+			}
 		}
 
 		if len(operationIDs) == 0 || swag.ContainsStrings(operationIDs, opr.ID) || swag.ContainsStrings(operationIDs, nm) {
